@@ -122,7 +122,9 @@ def main(pid):
             if cl in mine:
                 p = paths[tid - 1][0]
                 vd.violation(cl, {"alphabet_cfg": n, "path": p, "citations": [alpha[i - 1] for i in p],
-                                  "observed": obs[tid - 1]}, signature(alpha, p, cl))
+                                  "observed": obs[tid - 1]}, signature(alpha, p, cl),
+                             judge=vlib.J("Trace_Resolve", "Trace_Resolve.cfg", {"p": p, **{k: obs[tid - 1][k] for k in ("g", "r", "pre")}}, wrap={"alpha": alpha}),
+                             rerun=vlib.R("drv_resolve", "run", p, common={"alphabet": alpha, "prefixes": True}, fields=["g", "r", "pre"]))
         for tid, step, what in drifts:
             vd.spec_drift("Resolve", f"cfg={n} path={paths[tid-1][0]} step={step} {what}")
         ev.sample({"cfg": n, "path": paths[len(paths) // 2][0],
@@ -146,7 +148,9 @@ def main(pid):
             if cl in mine:
                 p = paths[tid - 1][0]
                 vd.violation(cl, {"alphabet_cfg": "Full", "path": p, "citations": [alpha[i - 1] for i in p],
-                                  "observed": obs[tid - 1]}, signature(alpha, p, cl))
+                                  "observed": obs[tid - 1]}, signature(alpha, p, cl),
+                             judge=vlib.J("Trace_Resolve", "Trace_Resolve.cfg", {"p": p, **{k: obs[tid - 1][k] for k in ("g", "r", "pre")}}, wrap={"alpha": alpha}),
+                             rerun=vlib.R("drv_resolve", "run", p, common={"alphabet": alpha, "prefixes": True}, fields=["g", "r", "pre"]))
         for tid, step, what in drifts:
             vd.spec_drift("Resolve", f"cfg=Full-sim path={paths[tid-1][0]} step={step} {what}")
     # beyond the listed properties: the driver loop with USER-SUPPLIED resolvers (ResolveGeneric.tla): TLC checks the
@@ -196,7 +200,8 @@ def main(pid):
                 ix, cl = b + int(m.group(1)) - 1, m.group(2)
                 if cl in mine:
                     vd.violation(cl, {"kind": "extracted list", "text": docs[ix], "citations": dobs[ix]["cites"], "observed": dobs[ix]["groups"]},
-                                 {"clause": cl, "kinds": "-".join(c["k"] for c in dobs[ix]["cites"])[:60]})
+                                 {"clause": cl, "kinds": "-".join(c["k"] for c in dobs[ix]["cites"])[:60]},
+                                 judge=vlib.J("Trace_Resolve", "Trace_Resolve.cfg", dtr[ix], wrap={"alpha": tf_alpha}))
             elif line.startswith('<<"DRIFT"'):
                 m = re.match(r'^<<"DRIFT", (\d+), (.*)>>$', line)
                 vd.spec_drift("Resolve", f"extracted list of {docs[b + int(m.group(1)) - 1][:80]!r}: {m.group(2)}")
